@@ -2,7 +2,7 @@
    see bin/propcfg/C05.py for the status. *)
 From Coq Require Import List ZArith Bool Permutation.
 From DD Require Import Model.Circuit Model.Query Proofs.Semantics Proofs.CountsA Proofs.QueryDefs
-  Proofs.C05Proof.
+  Proofs.C05Proof Proofs.C05Final.
 Import ListNotations.
 Open Scope Z_scope.
 
@@ -179,3 +179,13 @@ Example ex_k7 :
   Models k7_circuit 2 = [[-1; 2]] /\ calculate_core k7_circuit 2 = [2] /\
   snd (core_dead_with_assumptions (build k7_circuit 2) [2] (fresh_scratch k7_circuit)) = [-1; 2].
 Proof. vm_compute. repeat split. Qed.
+
+(* With the C02 theorem in place of the hypothesis: for every WF circuit, every non-empty
+   in-range assumption list and every Clean state, the with-assumptions report is exactly
+   [ l | l = i or -i in loop order, every model containing A contains l ]
+   (both polarities of every feature when no model contains A). *)
+Theorem C05_core_dead_with_assumptions : forall C n A s,
+  WFQ C n -> A <> [] -> in_range n A -> Clean C s ->
+  exists s', core_dead_with_assumptions (build C n) A s = (s', core_dead_sem C n A) /\ Clean C s'.
+Proof. exact core_dead_with_assumptions_final. Qed.
+Print Assumptions C05_core_dead_with_assumptions.
